@@ -175,9 +175,14 @@ static void check_pairs(Solver& eigs, Index ret, const Context& cx, const Args& 
     if (any_complex)
         c.cls("complex_pairs_returned");
     // distinct returned pairs are distinct eigenpairs: on simple, separated spectra the nearest-reference map is injective
+    // "Distinct returned pairs are distinct eigenpairs (no eigenvalue is overwritten by a copy of its neighbour)": two returned values that
+    // belong to the same simple reference eigenvalue AND agree with each other to rounding level are a copy. Two Ritz values that merely
+    // lie within the requested accuracy of one eigenvalue are not: with a loose tolerance (and a non-normal matrix) two different
+    // eigenvalues of the projected matrix can both pass the convergence test next to one eigenvalue of A, each a valid eigenpair to the
+    // accuracy asked for; they differ from each other at the level of that accuracy, not at rounding level.
     if (cx.min_gap > 0)
     {
-        std::vector<int> hit(cx.ref_ev.size(), 0);
+        std::vector<std::vector<Index>> hit(cx.ref_ev.size());
         bool decidable = true;
         for (Index i = 0; i < ret && decidable; i++)
         {
@@ -188,13 +193,31 @@ static void check_pairs(Solver& eigs, Index ret, const Context& cx, const Args& 
             if (std::abs(cx.ref_ev[jstar] - th[i]) > cx.min_gap / 4)
                 decidable = false;  // not close enough to any reference eigenvalue to decide (partial convergence with a loose tol)
             else
-                hit[jstar]++;
+                hit[jstar].push_back(i);
         }
         if (decidable)
         {
             c.cls("distinctness_decided");
+            // "the same number": a few units in the last place (a copy is produced by assignment, not by computation)
             for (size_t j = 0; j < hit.size(); j++)
-                VF_CHECK(hit[j] <= 1, "duplicate_eigenvalue", when << ": " << hit[j] << " returned pairs carry the eigenvalue " << cx.ref_ev[j] << " (a copy of a neighbour)");
+                for (size_t a = 0; a < hit[j].size(); a++)
+                    for (size_t b = a + 1; b < hit[j].size(); b++)
+                    {
+                        const cld ta = th[hit[j][a]], tb = th[hit[j][b]];
+                        if (std::abs(ta - tb) > 8 * EPS * std::max(std::abs(ta), std::abs(tb)))
+                        {
+                            c.cls("two_ritz_values_within_tolerance_of_one_eigenvalue(not a copy)");
+                            continue;
+                        }
+                        std::ostringstream all;
+                        all << " returned:";
+                        for (Index i = 0; i < ret; i++)
+                            all << " " << th[i];
+                        all << " reference spectrum:";
+                        for (const cld& l : cx.ref_ev)
+                            all << " " << l;
+                        VF_CHECK(false, "duplicate_eigenvalue", when << ": returned pairs " << hit[j][a] << " and " << hit[j][b] << " carry the same eigenvalue " << ta << " (reference " << cx.ref_ev[j] << "): a copy of a neighbour;" << all.str());
+                    }
         }
     }
 }
@@ -444,6 +467,15 @@ static void run_case(vf::Draw& d, vf::Case& c)
         {
             c.add_desc(os.str() + " singular shifted matrix");
             c.rejected = true;
+            return;
+        }
+        // a shift for which A - sigma I is numerically singular is "a shift that is an eigenvalue" for every practical purpose (the
+        // factorization the operator relies on has no correct digit): outside the domain, like the exactly singular one (as in C13)
+        if (smax / smin > std::min((ld) 1e12, (ld) 0.01 / EPS))
+        {
+            c.add_desc(os.str() + " numerically singular shifted matrix (cond " + vf::num(smax / smin) + ")");
+            c.rejected = true;
+            c.cls("rejected/numerically_singular_shift");
             return;
         }
         cx.norm_shifted = smax;
